@@ -47,6 +47,9 @@ func runC14(c *Ctx) {
 func runC15(c *Ctx) {
 	r15_1(c, "R15.1")
 	r15_2(c, "R15.2")
+	// repeating a copy: every creating call meets an emptied target (shared with C14)
+	r14_4(c, "R15.3")
+	r15_4(c, "R15.4")
 }
 
 // R15.2 / R14.5: an existing non-directory at the target is removed, never
@@ -875,6 +878,30 @@ func r14_3(c *Ctx, rule string) {
 			c.R.Fail(rule, c.siteName(call)+"/stat", c.pos(call), e.fn+" uses os.Stat, which follows symlinks")
 		}
 	}
+}
+
+// R15.4: the destination is inspected where it is used.
+func r15_4(c *Ctx, rule string) {
+	c.R.Rule(rule, "prepareTargetDir reads the state of the destination itself (os.Stat inside the function, once per wildcard match): a later match sees what an earlier match created")
+	pt := c.Fn(rule, "copy.(*copier).prepareTargetDir")
+	if pt == nil {
+		return
+	}
+	n := 0
+	for _, call := range c.P.CallsTo(pt, "(io/fs.FileInfo).IsDir", "(io/fs.FileInfo).Mode") {
+		recv := call.Common().Value
+		fromSrc := c.DerivesFrom(recv, func(v ssa.Value) bool { return c.isCallValueTo(v, "os.Lstat") }, 5)
+		if fromSrc {
+			continue // the source entry
+		}
+		n++
+		ok := c.DerivesFrom(recv, func(v ssa.Value) bool {
+			cl, isCall := v.(*ssa.Call)
+			return isCall && c.P.CalleeName(cl) == "os.Stat" && c.onlyIn(cl, c.name(pt))
+		}, 5)
+		c.R.Check(ok, rule, c.siteName(call)+"/destination-read-here", c.pos(call), "decided on an os.Stat of the destination made inside prepareTargetDir", "prepareTargetDir decides on a destination info it did not read itself (passed in, read once before the loop over wildcard matches): the second match does not see the directory the first one created")
+	}
+	c.R.Floor(rule, "destination inspections in prepareTargetDir", n, 1)
 }
 
 func r14_4(c *Ctx, rule string) {
